@@ -13,6 +13,7 @@ def build_sequence(seed, thorough=False, focus=None, n_records=None, n_descs=Non
     focus = (field type, value class): the first descriptor has a field of that type and the first record
     carries a value of that class in it."""
     rng = random.Random(seed)
+    del SPECS[:]
     pool = types
     if pool is None and not nested:
         pool = [t for t in gen.ALL_FIELD_TYPES if not t.startswith("record")]
@@ -23,6 +24,16 @@ def build_sequence(seed, thorough=False, focus=None, n_records=None, n_descs=Non
         must = [focus[0]] if (focus and i == 0) else []
         nf = rng.choice([0, 1, 2, 3, 4, 6] if small else [0, 1, 2, 3, 4, 6, 9, 12])
         descs.append(b.descriptor(must=must, nfields=max(nf, len(must)), types=pool))
+    # name twins: a second type whose name differs only in '/' versus '_' (same generated class name) with the SAME fields
+    if not focus and descs and rng.random() < 0.15:
+        from flow.record import RecordDescriptor
+
+        d0 = rng.choice(descs)
+        if "/" in d0.name:
+            parts = d0.name.split("/")
+            k = rng.randrange(len(parts) - 1)
+            twin = "/".join(parts[:k] + [parts[k] + "_" + parts[k + 1]] + parts[k + 2:])
+            descs.append(RecordDescriptor(twin, list(d0.get_field_tuples())))
     n_records = n_records if n_records is not None else rng.choice([1, 2, 3, 5, 8, 13, 21, 40])
     records = []
     for j in range(n_records):
@@ -33,9 +44,53 @@ def build_sequence(seed, thorough=False, focus=None, n_records=None, n_descs=Non
             f = {fname: focus[1]}
         if grouped and not f and rng.random() < 0.08:
             records.append(b.grouped())
+            SPECS.append(None)
         else:
             records.append(b.record(d, focus=f))
+            # what the record was created from, taken from the descriptor object itself (not through the record)
+            SPECS.append([str(d.name), [[str(t), str(n)] for t, n in d.get_field_tuples()]])
     return records
+
+
+SPECS = []  # per record of the last build_sequence call: [name, fields] it was created with (None for grouped records)
+
+
+def last_specs():
+    return list(SPECS)
+
+
+def coincident_pairs():
+    """Pairs of different descriptors with the same name AND the same 32-bit identifier hash.  The hash input is the
+    plain concatenation name + (fieldname + fieldtype)..., so moving characters between a type and the next name keeps it."""
+    from flow.record import RecordDescriptor
+
+    out = []
+    for name, fa, fb in (
+        ("co/one", [("string", "a"), ("string", "varintq")], [("varint", "astring"), ("string", "q")]),
+        ("co/two", [("stringlist", "a"), ("string", "b")], [("string", "a"), ("string", "listb")]),
+        ("co/three", [("uint16", "x"), ("string", "y")], [("string", "xuint16y")]),
+        ("co/four", [("wstring", "a")], [("string", "aw")]),
+    ):
+        A, B = RecordDescriptor(name, fa), RecordDescriptor(name, fb)
+        if A.identifier == B.identifier and A.get_field_tuples() != B.get_field_tuples():
+            out.append((A, B))
+    return out
+
+
+def coincident_sequence(seed, n=None):
+    """Records of identifier-coincident types, interleaved (A, B, A, B ... in random order)."""
+    rng = random.Random(seed)
+    pairs = coincident_pairs()
+    b = gen.Builder(rng)
+    A, B = rng.choice(pairs)
+    n = n or rng.randint(2, 8)
+    del SPECS[:]
+    recs = []
+    for j in range(n):
+        d = (A, B)[j % 2] if rng.random() < 0.7 else rng.choice((A, B))
+        recs.append(b.record(d))
+        SPECS.append([str(d.name), [[str(t), str(x)] for t, x in d.get_field_tuples()]])
+    return recs
 
 
 def describe(records, limit=6):
